@@ -632,6 +632,12 @@ func (d *DataStore) WriteUpdateWithXattrs(ctx context.Context, k string, xattrKe
 			last.fin(errors.New("cas retry"), false)
 			lastSet = false
 		}
+		if doc != nil && len(doc) == 0 {
+			// Store-model adaptation: Couchbase Server hands the update callback a nil body for a tombstone
+			// (base.Collection.WriteUpdateWithXattrs: wasServerTombstone = value == nil); rosmar hands it an empty, non-nil
+			// slice, which the code under test reads as "a document with an empty body".
+			doc = nil
+		}
 		upd, err := callback(doc, xattrs, cas)
 		if err != nil {
 			return upd, err
